@@ -430,9 +430,10 @@ fn general_case(ctx: &Ctx, env: &RealEnv, dir: &std::path::Path, case: u64, seed
             for _ in 0..rng.range(1, 2) {
                 let s = rng.pick(&nonphony).clone();
                 inv.faults.insert(s.clone(), *rng.pick(&[FailMode::Nothing, FailMode::All, FailMode::Some]));
-                if rng.chance(1, 2) {
+                let how = rng.below(5);
+                if how < 2 {
                     inv.exit_codes.insert(s, rng.range(1, 255) as i32);
-                } else if rng.chance(1, 2) {
+                } else if how < 4 {
                     // the shell itself is killed (what n2 sees as a terminating signal)
                     inv.signals.insert(s, (*rng.pick(&[libc::SIGTERM, libc::SIGKILL, libc::SIGSEGV, libc::SIGHUP]), true));
                 }
